@@ -270,6 +270,12 @@ def gen_numbering(rng, tier):
         level = 0
         if r < 0.55:
             base = cx.random_complex(rng, tier, pardim, allow=('grid', 'shape', 'diag', 'ring', 'torus'))
+            if base['family'] == 'ring-2':
+                # ring_complex draws the bases per patch: the directions spanning the two interfaces (radial, and
+                # z for volumes) must carry the same basis in both patches, or the complex is not conforming
+                for d in (0, 2):
+                    if d < pardim:
+                        base['patches'][1]['bases'][d] = dict(base['patches'][0]['bases'][d])
         else:
             # refinement levels: the same kind of complex on a finer lattice per patch
             level = rng.choice([1, 2, 2, 3])
